@@ -13,7 +13,7 @@ use heathcliff::verif::polymod;
 use heathcliff::*;
 use serde_json::{json, Value};
 
-fn negacyclic_mul(a: &[u64], b: &[u64], q: u64) -> Vec<u64> {
+pub fn negacyclic_mul(a: &[u64], b: &[u64], q: u64) -> Vec<u64> {
     let n = a.len();
     let mut out = vec![0u64; n];
     for i in 0..n {
